@@ -209,6 +209,42 @@ class Scf:
     pass
 
 
+class FVec:
+    """Fillings of one (k, spin) channel as far as control flow may look at them: constant or not, occupied or not."""
+
+    def __init__(self, constant):
+        self.constant = constant
+
+    def __getitem__(self, i):
+        return ("filling", i)
+
+    def __ne__(self, o):
+        return FMaskNe(self.constant)
+
+    def __eq__(self, o):
+        return FMaskNe(not self.constant)
+
+    __hash__ = None
+
+    def __gt__(self, o):
+        if o != 0:
+            raise A.OutsideSubset("occupied states are selected with f > 0")
+        from pycv.opalg.arrays import ColMask
+
+        return ColMask("occ")
+
+
+class FMaskNe:
+    def __init__(self, all_false):
+        self.all_false = all_false
+
+    def any(self):
+        return not self.all_false
+
+    def all(self):
+        raise A.OutsideSubset("all() of a fillings comparison")
+
+
 def make_scf(loader, Nk=1, Nspin=1, symmetric_h=True, pot="gth"):
     at = make_atoms(loader, Nk=Nk, Nspin=Nspin)
     at.Natoms = 1
@@ -223,6 +259,7 @@ def make_scf(loader, Nk=1, Nspin=1, symmetric_h=True, pot="gth"):
     f = [[A.ctx().var(f"f{ik}{s}", positive=True) for s in range(Nspin)] for ik in range(Nk)]
     at.occ.F = [[NArr(NC.ident(DIM["Nstate"], f[ik][s]), (DIM["Nstate"], DIM["Nstate"])) for s in range(Nspin)] for ik in range(Nk)]
     at.occ.fsym = f
+    at.occ.f = [[FVec(True) for s in range(Nspin)] for ik in range(Nk)]
     vxc = [vec_atom(f"vxc{s}", DIM["Ns"], real=True) for s in range(Nspin)]
     phir = vec_atom("phi_r", DIM["Ns"], real=True)
     pots = dict(dn_spin=None, phi=at.J(phir), vxc=vxc, vsigma=None, vtau=None)
